@@ -85,9 +85,20 @@ func (s *State) clone() *State {
 }
 
 func (s *State) assume(f string) {
-	if f != "true" && f != "" {
-		s.pc = append(s.pc, f)
+	if f == "true" || f == "" {
+		return
 	}
+	// top-level conjunctions are split so that the quantifier-free parts survive when quantified
+	// assertions are dropped for candidate-model search
+	if strings.HasPrefix(f, "(and ") {
+		if parts := splitTop(f[5 : len(f)-1]); len(parts) > 1 {
+			for _, p := range parts {
+				s.assume(p)
+			}
+			return
+		}
+	}
+	s.pc = append(s.pc, f)
 }
 
 type Frame struct {
